@@ -47,6 +47,12 @@ def _l1_worker(args):
             if r["dis"]:
                 i, diff, da, db = r["dis"]
                 rel = set(diff) & L1_FIELDS[pid]
+                if pid == "C01":
+                    # only sizes and the outcome of puts matter for the capacity property
+                    n = lambda d, f: len([x for x in d.get(f, "").split(",") if x])
+                    rel = {f for f in ("items", "ready", "putres") if n(da, f) != n(db, f)}
+                    if "res" in diff and i < len(r["micro"]) and r["micro"][i][0] == "PUT":
+                        rel.add("res")
                 if pid == "C07" and (da.get("res", "").startswith("err") or db.get("res", "").startswith("err")):
                     rel = set(diff)
                 if rel or "length" in diff:
